@@ -90,3 +90,41 @@ func composeMethod(ctx *Ctx, ca ctorAlt, name string, opaque ...string) (Val, *E
 	r := ev.Call(m, args, nil, &st)
 	return r, ev, nil
 }
+
+// composeApply runs method `name` of the built object for its effect on the object (a setter)
+// and returns the constructor alternative as it is afterwards: the same object in the state
+// the method left behind. Arguments are symbolic.
+func composeApply(ctx *Ctx, ca ctorAlt, name string, opaque ...string) (ctorAlt, error) {
+	m := methodOf(ctx, ca.typ, name)
+	if m == nil || len(m.Blocks) == 0 {
+		return ca, fmt.Errorf("method %s not found on %s", name, typeShort(ca.typ))
+	}
+	ev := newEval(ctx, opaque...)
+	ev.budget = 60000
+	ev.symObjs = ca.ev.symObjs
+	ev.siteObjs = map[string]*Obj{}
+	ev.nobj = ca.ev.nobj + 500
+	st := ca.state.clone()
+	var recv Val = ca.ptr
+	if ifc, ok := recv.(*Iface); ok {
+		recv = ifc.Dyn
+	}
+	args := []Val{recv}
+	for i, p := range m.Params[1:] {
+		args = append(args, symVal(paramName(m, i+1), p.Type()))
+	}
+	ev.stack = nil
+	ev.Call(m, args, nil, &st)
+	if ev.Exceeded {
+		return ca, fmt.Errorf("evaluation budget exceeded in %s", name)
+	}
+	out := ca
+	out.state = st
+	out.ev = ev
+	if p, ok := recv.(*Ptr); ok && p.Obj != nil {
+		if ag, ok := getPath(st.mem[p.Obj], p.Path).(*Agg); ok {
+			out.obj = ag
+		}
+	}
+	return out, nil
+}
